@@ -175,6 +175,9 @@ def parseAdts (f : Bytes) (startOffset : Nat) : Except PyErr Info :=
             length := if frequency ≠ 0 then ⟨(s.samples : Int) * streamSize, ((s.lastBits / 8 * frequency : Nat) : Int)⟩ else ⟨0, 1⟩,
             adif := false }
 
+/-- `if c: r.skip(n)` -/
+def R.skipIf (f : Bytes) (r : R) (c : Bool) (n : Nat) : Option R := if c then r.skip f n else some r
+
 /-- `ProgramConfigElement(r)`: (sampling_frequency_index, channels, reader) -/
 def elmsLoop (f : Bytes) : Nat → R → Nat → Option (Nat × R)
   | 0, r, ch => some (ch, r)
@@ -197,11 +200,11 @@ def parsePce (f : Bytes) (r : R) : Option (Nat × Nat × R) := do
   let (assoc, r) ← r.bits f 3
   let (cc, r) ← r.bits f 4
   let (mono, r) ← r.bits f 1
-  let r ← if mono = 1 then r.skip f 4 else some r
+  let r ← r.skipIf f (decide (mono = 1)) 4
   let (stereo, r) ← r.bits f 1
-  let r ← if stereo = 1 then r.skip f 4 else some r
+  let r ← r.skipIf f (decide (stereo = 1)) 4
   let (matrix, r) ← r.bits f 1
-  let r ← if matrix = 1 then r.skip f 3 else some r
+  let r ← r.skipIf f (decide (matrix = 1)) 3
   let (channels, r) ← elmsLoop f (front + side + back) r 0
   let r ← r.skip f (4 * lfe)
   let r ← r.skip f (4 * assoc)
@@ -220,12 +223,12 @@ def pceLoop (f : Bytes) : Nat → R → Option R
 
 def adifHeader (f : Bytes) (r : R) : Option (Nat × Nat × Nat × R) := do
   let (copyrightPresent, r) ← r.bits f 1
-  let r ← if copyrightPresent ≠ 0 then r.skip f 72 else some r
+  let r ← r.skipIf f (decide (copyrightPresent ≠ 0)) 72
   let r ← r.skip f 2
   let (bitstreamType, r) ← r.bits f 1
   let (bitrate, r) ← r.bits f 23
   let (npce, r) ← r.bits f 4
-  let r ← if bitstreamType = 0 then r.skip f 20 else some r
+  let r ← r.skipIf f (decide (bitstreamType = 0)) 20
   let (sfi, channels, r) ← parsePce f r
   let r ← pceLoop f npce r
   pure (bitrate, sfi, channels, r.align)
